@@ -56,13 +56,30 @@ def props_section():
     return "\n".join(out)
 
 
+def seed_table():
+    import json
+    d = os.path.join(ROOT, "seeded")
+    rows = []
+    for sid in sorted(os.listdir(d)) if os.path.isdir(d) else []:
+        mp = os.path.join(d, sid, "meta.json")
+        if not os.path.exists(mp):
+            continue
+        m = json.load(open(mp))
+        res = m.get("check_result", {})
+        rows.append("| %s | %s | %s | %s | %s |" % (
+            sid, (m.get("title") or m.get("what_it_breaks") or "")[:150].replace("|", "/"),
+            (m.get("needs_to_manifest") or "")[:150].replace("|", "/"),
+            res.get("verdict", "(not run yet)"), (res.get("how") or "")[:220].replace("|", "/")))
+    return ("| id | change | needs to manifest | caught? | by which gate / clause |\n|---|---|---|---|---|\n" + "\n".join(rows)) if rows else "(none yet)"
+
+
 def main():
     t = open(os.path.join(P, "DESIGN.md.in")).read()
     k, f = known_table()
     t = t.replace("@@FIXES@@", f + "\n\n" + read("fixes.md"))
     t = t.replace("@@PROPS@@", read("props_intro.md") + "\n\n" + props_section())
     t = t.replace("@@KNOWN@@", read("known_intro.md") + "\n\n" + k)
-    t = t.replace("@@SEEDED@@", read("seeded.md"))
+    t = t.replace("@@SEEDED@@", read("seeded.md").replace("@@SEEDTABLE@@", seed_table()))
     open(os.path.join(ROOT, "DESIGN.md"), "w").write(t)
 
 
